@@ -192,6 +192,8 @@ class Hooks:
             return Fn(lambda *a: self.new_instr(*a))
         if name == 'InternalError':
             return 'InternalError'
+        if name == 'defaultdict':
+            return Fn(lambda *a: {})
         if name == 'expr':
             return ExprNS(self)
         if name in ('logger', 'logging'):
@@ -266,6 +268,7 @@ ALPHABET = [
     ('push%', 0), ('push%', 7), ('push&', 3), ('push!', 1.5),
     ('conv%&',), ('conv!%',),
     ('readl%', 'x'), ('storel', 'x'), ('readg&', 'g'), ('storeg', 'g'),
+    ('readidxl%', 'x', 1), ('storeidxl', 'x', 1), ('storeidxl', 'x', 2),
     ('not',), ('neg',), ('add',), ('sub',), ('and',),
     ('jmp', 'L1'), ('jmp', 'L2'), ('jz', 'L1'), ('jz', 'L2'),
     ('_label', 'L1'), ('_label', 'L2'),
@@ -289,18 +292,13 @@ def run_optimize(hooks, window):
         interp.MAX_LOOP = 400
         instrs = [hooks.new_instr(*w) for w in window]
 
-        class Self(AbsObj):
-            def __init__(self):
-                self.d = {'_instrs': instrs}
-
-            def getattr_(self, a, interp):
-                if a in self.d:
-                    return self.d[a]
-                raise Unmodelled(f'self.{a}')
-
-            def setattr_(self, a, v, interp):
-                self.d[a] = v
-        s = Self()
+        s = Obj(hooks, cls)
+        init = hooks.repo.find_method(cls, '__init__')
+        if init is not None:
+            Closure(init.node, hooks.module_env('qbee.qvm_codegen'),
+                    name='QvmCode.__init__').call_([s], {}, interp)
+        s.d['_instrs'] = instrs
+        s.d['_string_literals'] = ['a', 'b']
         clo = Closure(fn.node, hooks.module_env('qbee.qvm_codegen'),
                       name='optimize')
         try:
@@ -377,7 +375,8 @@ def _show_cells(cells):
 def run_window(sim, window, entry, stack):
     """Executes window[entry:] on the handlers.  Returns a hashable outcome
     or ('undecided', why)."""
-    frame = MemSeg({0: sim.cell('INTEGER', 9)})
+    frame = MemSeg({0: sim.cell('INTEGER', 9), 1: sim.cell('INTEGER', 21),
+                    2: sim.cell('INTEGER', 22)})
     glob = MemSeg({1: sim.cell('LONG', 4)})
     cells = [sim.cell(t, v) for t, v in stack]
     pos = entry
@@ -509,7 +508,9 @@ def compare(sim, before, after):
 
 QUICK_ALPHABET = [
     ('push%', 0), ('push%', 7), ('conv%&',), ('readl%', 'x'),
-    ('storel', 'x'), ('not',), ('add',), ('jmp', 'L1'), ('jmp', 'L2'),
+    ('storel', 'x'), ('readidxl%', 'x', 1), ('storeidxl', 'x', 1),
+    ('storeidxl', 'x', 2),
+    ('not',), ('add',), ('jmp', 'L1'), ('jmp', 'L2'),
     ('jz', 'L1'), ('jz', 'L2'), ('_label', 'L1'), ('ret',), ('halt',),
     ('pop',), ('_dbg_info_end', 'n'),
 ]
@@ -566,7 +567,13 @@ def check(ctx, pid):
                          'examples': [f'{a} -> {b}' for a, b in
                                       res['sample_rewrites'][:4]]})
     seen = set()
-    for win, after, w in res['witnesses']:
+    wits = sorted(res['witnesses'], key=lambda x: (len(x[0]), repr(x[0])))
+    if wits:
+        # the shortest windows are the rewrites themselves; longer ones
+        # only add unchanged context
+        shortest = len(wits[0][0])
+        wits = [x for x in wits if len(x[0]) == shortest][:6]
+    for win, after, w in wits:
         shape = ' '.join(x[0] for x in win) + ' => ' + \
             (' '.join(x[0] for x in after) or '(nothing)')
         if shape in seen:
